@@ -24,13 +24,15 @@ type Profile struct {
 	LoneDash float64 // probability that "-" is a declared option name
 	Lower    float64
 	// argv shaping
-	Dashes  float64 // extra `--` tokens
-	Abbrev  float64 // probability of abbreviating a name
-	Aliases float64 // probability of giving an option aliases
-	Short   float64 // probability of single-dash spelling
-	Unknown float64 // extra unknown options
-	Sugg    float64 // suggested values / static argument suggestions
-	Comp    bool    // completion cases (argv = COMP_LINE words)
+	Dashes    float64 // extra `--` tokens
+	Abbrev    float64 // probability of abbreviating a name
+	Aliases   float64 // probability of giving an option aliases
+	Short     float64 // probability of single-dash spelling
+	Unknown   float64 // extra unknown options
+	Sugg      float64 // suggested values / static argument suggestions
+	Comp      bool    // completion cases (argv = COMP_LINE words)
+	HelpCases bool    // also request the help of every command level
+	Descs     float64 // descriptions (some multi-line) on options and commands
 }
 
 var AllKinds = []string{"bool", "incr", "string", "int", "float", "sopt", "iopt", "fopt", "sslice", "islice", "fslice", "smap"}
@@ -97,6 +99,20 @@ func GenDef(r *rand.Rand, p *Profile) Cfg {
 			}
 		}
 	}
+	if p.Descs > 0 {
+		for i := range c.Nodes {
+			if i > 0 && chance(r, p.Descs) {
+				c.Nodes[i].Desc = T(pick(r, []string{"a command", "does this\nand that", "z"}))
+			}
+			if chance(r, p.Descs/3) {
+				c.Nodes[i].Args = Ts("<file>", "<n>")
+				c.Nodes[i].ArgsD = Ts("the file", "")
+			}
+		}
+		if chance(r, p.Descs) {
+			c.Desc = T("program description")
+		}
+	}
 	// options: names unique along every root..node chain; simplest sound rule: unique over the whole tree
 	taken := map[string]bool{}
 	nopt := 1 + r.Intn(p.MaxOpts)
@@ -158,8 +174,11 @@ func GenDef(r *rand.Rand, p *Profile) Cfg {
 		if chance(r, p.Sugg) && kind != "bool" && kind != "incr" {
 			o.Sugg = Ts("dev", "devel", "prod")
 		}
-		if chance(r, p.Sugg/3) {
+		if chance(r, p.Sugg/3) || chance(r, p.Descs/3) {
 			o.ArgName = T("thing")
+		}
+		if chance(r, p.Descs) {
+			o.Desc = T(pick(r, []string{"does a thing", "first line\nsecond line", "x", "with (parens) inside"}))
 		}
 		c.Opts = append(c.Opts, o)
 	}
